@@ -38,6 +38,7 @@ def native_helpers(LOG, params, spec):
             (c["kwargs"].get("name", c["args"][2] if len(c["args"]) > 2 else (c["args"][0] if c["method"] == "remove" and c["args"] else None))
              == "enable_limit_reached") for c in LOG),
         "timed_disable_pending": lambda: delay_state("timed_disable")[0],
+        "postponed_enable_pending": lambda: delay_state("postponed_enable")[0],
         "timed_disable_ms": lambda: delay_state("timed_disable")[1],
         "issued_hw_enable": lambda: any(c["cls"] == "DriverPlatformInterface" and c["method"] == "enable" for c in LOG),
         "issued_hw_disable": lambda: any(c["cls"] == "DriverPlatformInterface" and c["method"] == "disable" for c in LOG),
